@@ -208,3 +208,14 @@ def check(ctx, w, interesting, rule="R13.9"):
                         fail="the set difference feeding %s is wrong: %s" % (target, "; ".join(why)[:300]))
     else:
         ctx.violation(rule, "floor:diff-if", "cannot find the `if pathset.is_empty()` diff (found %d)" % len(ifs), loc)
+
+    # ---- the element type of the diff: two WatchedPaths are the same element only if path AND recursion mode agree, so a
+    # mode flip of a registered path shows up as drop + add (derived, field-wise PartialEq / Eq / Hash)
+    WP = "watchexec::watched_path::WatchedPath"
+    adt = ctx.facts.find_adt(WP)
+    fields = sorted(f["name"] for f in adt["variants"][0]["fields"]) if adt else []
+    der = {t: ctx.facts.derived(WP, t) for t in ("PartialEq", "Eq", "Hash")}
+    ctx.require(fields == ["path", "recursive"] and all(v is True for v in der.values()), rule, "diff:element-equality",
+                "WatchedPath compares and hashes field-wise over (path, recursive)", loc, detail="%s %s" % (fields, der),
+                fail="WatchedPath's equality/hash is no longer the derived field-wise one over (path, recursive) (%s): a path whose recursion mode "
+                     "changes is `already registered` for the diff and keeps its old mode" % der)
